@@ -49,7 +49,7 @@ func init() {
 		Batch:  func(t string) int { return 40 },
 		Floors: []string{"layouts_enumerated", "layouts_random", "layouts_from_files", "layouts_from_schema_files", "multi_row_group_indexes", "multi_row_group_ascending", "logical_dba", "logical_dfl", "logical_u32", "logical_u64", "logical_f64", "probes", "null_page_between_ordered_pages", "order_ascending", "order_descending", "order_unordered", "truncated_bounds", "duplicate_bounds", "probe_absent", "probe_present"},
 		Rule: "three sources of column indexes: (a) EXHAUSTIVE enumeration of all layouts of 1..4 pages (5 in thorough) where each page is a null page or [lo,hi] over a 5-value alphabet, with every boundary-order claim that is true for the layout, " +
-			"passed through NewColumnIndex; (b) PRNG layouts of up to 200 pages (int32 and byte-array with truncated/incremented bounds, duplicates, overlaps); (c) column indexes of files the writer produced. Every alphabet value, every bound and its neighbours are probed with " +
+			"passed through NewColumnIndex; (b) PRNG layouts of up to 200 pages (int32 and byte-array with truncated/incremented bounds, duplicates, overlaps); (c) column indexes of files the writer produced (typed struct files; explicit-schema files with signed decimals, unsigned integers, floats, timestamps over 1..5 row groups, probed per row group and through the concatenated index of parquet.MultiRowGroup). Every alphabet value, every bound and its neighbours are probed with " +
 			"Search and Find(CompareNullsFirst/Last). Oracle from the generated page contents: result <= first page containing the value; a result < NumPages has bounds containing the value; NumPages only if no page's bounds contain it. Distinct = layout hash",
 		Assumptions: []string{"boundary-order claims fed to the search are computed truthfully from the layout per the spec (null pages ignored), as the statement restricts itself to indexes the writer can produce"},
 		Run:         runC06,
